@@ -140,6 +140,31 @@ def custom_sort_fn(ld, r, count):
         b = list(ds.sort(lambda e: e['v'], sort_fn=mine, reverse=rev).items())
         if [x[1] for x in a] != [x[1] for x in b] and sorted(vals, reverse=rev) != [x[1]['v'] for x in b]:
             fails.append(f'custom sort_fn: {b} vs default {a}')
+        # a sort_fn whose order differs from the builtin one decides the result: without key_fn it is applied to the example keys
+        # (natural order: shorter keys first), with key_fn to the (sort value, position) pairs
+        calls = []
+
+        def natural(it, reverse=False):
+            calls.append(1)
+            return sorted(it, key=lambda k: (len(k), k) if isinstance(k, str) else (-k[0], k[1]), reverse=reverse)
+        keys = list(ds.keys())
+        want = natural(keys, reverse=rev)
+        try:
+            got = list(ds.sort(sort_fn=natural, reverse=rev).keys())
+        except Exception as e:
+            got = f'raised {type(e).__name__}'
+        if got != want:
+            fails.append(f'sort(sort_fn=natural order, reverse={rev}) over keys {keys}: result keys {got}, sort_fn orders them {want}')
+        elif len(calls) < 2 and n:
+            fails.append('sort(sort_fn=...) without key_fn never called the given sort_fn')
+        import itertools
+        wantv = [keys[i] for _, i in natural(list(zip(vals, itertools.count())), reverse=rev)]
+        try:
+            gotv = list(ds.sort(lambda e: e['v'], sort_fn=natural, reverse=rev).keys())
+        except Exception as e:
+            gotv = f'raised {type(e).__name__}'
+        if gotv != wantv:
+            fails.append(f'sort(key_fn, sort_fn=custom order, reverse={rev}) over values {vals}: result keys {gotv}, sort_fn orders them {wantv}')
     return fails
 
 
